@@ -54,7 +54,7 @@ func (*c15) ID() string                     { return "C15" }
 func (*c15) Level() string                  { return "fault_enumeration" }
 func (*c15) Decode(raw []byte) (any, error) { return decodeInto[C15Scenario](raw) }
 
-var c15Alphabet = []string{"first-ok", "first-foreign", "first-trunc", "first-malformed", "first-iter0", "final-ok", "final-prev", "final-other", "final-empty", "final-zerokey", "final-blank", "empty", "junk", "235", "535", "hangup", "first-ok-ext", "final-noext", "first-prefix", "junk-prompt"}
+var c15Alphabet = []string{"first-ok", "first-foreign", "first-trunc", "first-malformed", "first-iter0", "final-ok", "final-prev", "final-other", "final-empty", "final-zerokey", "final-blank", "empty", "junk", "235", "535", "hangup", "first-ok-ext", "final-noext", "first-prefix", "junk-prompt", "final-error"}
 
 type c15Variant struct{ mech, tls, via string }
 
@@ -440,7 +440,7 @@ func (p *c15) Shrink(scAny any) []any {
 
 func (p *c15) Info() PropInfo {
 	return PropInfo{
-		Rule: "histories: an honest session of another client with the right password before a judged client that holds a wrong one, and an honest session of the same Client that the adversary records and replays (final-lastconn) — with the mechanism configured by name (a new Auth value per connection) and as a caller-made smtp.Auth value that serves both connections —, each with all sequences of length 1..3 over a 7-symbol alphabet; enumeration: all sequences of length 1..4 (thorough: 1..5) over the 20-symbol server alphabet {first-prefix (r= is the first half of the client's nonce and nothing else), junk-prompt (\"Username:\"), hangup (the connection is dropped), first-ok-ext (valid server-first with an extension attribute), final-noext (signed over the messages without that attribute), first-ok, first-foreign, first-trunc, first-malformed, first-iter0 (iteration count 0), final-zerokey (computed with an all-zero salted password), final-blank (\"v=\"), final-ok, final-prev (valid for the previous, abandoned exchange), final-other, final-empty, empty, junk, 235, 535} for SCRAM-SHA-256, SCRAM-SHA-1, SCRAM-SHA-256-PLUS over TLS 1.3, SCRAM-SHA-1-PLUS over TLS 1.2 (thorough: both PLUS variants over both TLS versions), half of the variants through mail.Client.DialWithContext and half through smtp.Client.Auth called directly; sequences that continue after 235/535 are counted as duplicates of their prefix; non-trivial = an AUTH exchange took place; distinct = distinct (mechanism, TLS version, sequence of messages actually played, outcome)",
+		Rule: "histories: an honest session of another client with the right password before a judged client that holds a wrong one, and an honest session of the same Client that the adversary records and replays (final-lastconn) — with the mechanism configured by name (a new Auth value per connection) and as a caller-made smtp.Auth value that serves both connections —, each with all sequences of length 1..3 over a 7-symbol alphabet; enumeration: all sequences of length 1..4 (thorough: 1..5) over the 21-symbol server alphabet {final-error (\"e=other-error\", the server-error form of the server-final message), first-prefix (r= is the first half of the client's nonce and nothing else), junk-prompt (\"Username:\"), hangup (the connection is dropped), first-ok-ext (valid server-first with an extension attribute), final-noext (signed over the messages without that attribute), first-ok, first-foreign, first-trunc, first-malformed, first-iter0 (iteration count 0), final-zerokey (computed with an all-zero salted password), final-blank (\"v=\"), final-ok, final-prev (valid for the previous, abandoned exchange), final-other, final-empty, empty, junk, 235, 535} for SCRAM-SHA-256, SCRAM-SHA-1, SCRAM-SHA-256-PLUS over TLS 1.3, SCRAM-SHA-1-PLUS over TLS 1.2 (thorough: both PLUS variants over both TLS versions), half of the variants through mail.Client.DialWithContext and half through smtp.Client.Auth called directly; sequences that continue after 235/535 are counted as duplicates of their prefix; non-trivial = an AUTH exchange took place; distinct = distinct (mechanism, TLS version, sequence of messages actually played, outcome)",
 		Assumptions: []string{"the adversary's 'valid' messages are computed by the reference SCRAM implementation (validated on the RFC 5802/7677 vectors at start-up) from the real password; all other messages are computable without it",
 			"server-final messages are delivered as 334 challenges followed by 235, as SMTP servers do (RFC 4954 has no data in the 235 reply)"},
 		Real:        []string{"go-mail smtp.Client.Auth, scramAuth (all four variants), Client.DialWithContext, channel-binding derivation", "crypto/tls on both ends for the PLUS variants"},
